@@ -540,3 +540,21 @@ USED_JOBS = [
 ]
 PLAN["C12"]["jobs"] = PLAN["C12"]["jobs"] + USED_JOBS
 PLAN["C03"]["jobs"] = PLAN["C03"]["jobs"] + USED_JOBS
+
+ENGINE_JOBS = []
+for _e in range(9):
+    ENGINE_JOBS.append(S("h_engines", dict(e=_e, alg=0, n=2, cp=1), ["engine.checkpoint_with_generators", "engine.generator_after_the_run"]))
+for _e in (0, 2, 3, 6, 8):
+    ENGINE_JOBS.append(S("h_engines", dict(e=_e, alg=1, n=2, cp=0), ["engine.checkpoint_with_generators"]))
+    ENGINE_JOBS.append(S("h_engines", dict(e=_e, alg=2, n=2, cp=0), ["engine.checkpoint_with_generators"]))
+for _fl in ("24", "64"):
+    for _e in (1, 2, 4, 7):
+        ENGINE_JOBS.append(S("h_engines@" + _fl, dict(e=_e, alg=0, n=2, cp=1), ["engine.generator_after_the_run"]))
+for _e in range(9):
+    ENGINE_JOBS.append(S("h_engines", dict(e=_e, alg=1, n=3, cp=1, user=1), ["engine.checkpoint_with_generators"], tiers=T))
+    ENGINE_JOBS.append(S("h_engines@64", dict(e=_e, alg=2, n=2, cp=1, user=1), ["engine.checkpoint_with_generators"], tiers=T))
+for _p in ("C03", "C05", "C10"):
+    PLAN[_p]["jobs"] = PLAN[_p]["jobs"] + ENGINE_JOBS
+    PLAN[_p]["functions"] = PLAN[_p]["functions"] + ["hep::chkpt_with_rng<E,C> with E = every standard engine (concrete engine, its own operator<< / >> / discard / ==)"]
+PLAN["C05"]["explanation"] = PLAN["C05"]["explanation"].replace("nor the std engines' own stream operators; hence", "the std engines run concretely "
+    "(their own stream operators are exercised for the states a 2-3 iteration run reaches, not for all states); hence")
